@@ -438,6 +438,11 @@ func (g *Graph) FailureReaches(h Hit, target Loc) (reaches bool, checked bool) {
 			}
 			return reaches
 		})
+		// the test must be unavoidable: a path from the call to the target that does not make
+		// this test (an earlier branch on something else, e.g. errors.Is) carries the failure too
+		if !reaches && g.ReachesAvoiding(h.Loc, target, cl) {
+			reaches = true
+		}
 		return reaches, true
 	}
 	return true, false
